@@ -815,16 +815,23 @@ fn gen_cb(rng: &mut Rng, fault_pm: usize) -> Vec<CbOp> {
                 }
             }
             10 => {
-                let text = if fault {
+                let mut text = if fault {
                     rng.pick(&[&b"a..b"[..], &b""[..], &[b'x'; 70][..], &[b'a', 0xc3, 0xa9][..]])
                         .to_vec()
                 } else {
                     gen::gen_ldh_name(rng).text()
                 };
-                let zone = if rng.chance(1, 3) {
-                    Name::from_labels(&[b"zone", b"test"]).wire()
-                } else {
-                    vec![]
+                if !fault && rng.chance(1, 3) && text != b"." {
+                    text.push(b'.'); // fully qualified: the default zone must be ignored
+                }
+                let zone = match rng.below(6) {
+                    0 | 1 => Name::from_labels(&[b"zone", b"test"]).wire(),
+                    2 => {
+                        // a long zone (so that name + zone approaches or exceeds 255 bytes)
+                        let t = *rng.pick(&[60usize, 74, 100, 150, 200]);
+                        gen::gen_name_of_len(rng, t).wire()
+                    }
+                    _ => vec![],
                 };
                 CbOp::SetName {
                     text,
